@@ -61,7 +61,9 @@ def gen_leaf(rng, mode, style, const=None):
         dt = DTYPES[mode]
         shape = (256, 256) if mode != "F16x3" else (256, 256, 3)
         scale = 60.0 if mode == "F16x3" else 1000.0
-        arr = (rng.random_sample(shape) * scale - (0.2 * scale if style != 3 else 0)).astype(dt)
+        # value range per leaf: mostly mixed sign, sometimes entirely negative / entirely positive / straddling zero tightly
+        off = (0.2, 0.2, 1.5, 0.0, 0.5)[rng.randint(0, 5)] if style != 3 else 0.0
+        arr = (rng.random_sample(shape) * scale - off * scale).astype(dt)
         undefined = np.zeros((256, 256), dtype=bool)
         if style == 1:
             undefined = rng.random_sample((256, 256)) < 0.4
